@@ -298,6 +298,8 @@ func (m *Monitor) IOFaulted(role, op, addr string) {
 	case role == "listener" && op == "WriteTo":
 		i := strings.Index(addr, ">")
 		m.srvWriteFailed[addr[i+1:]] = true
+	case role == "listener-conn" && op == "TornWrite":
+		m.v([]string{"C05", "C10", "C19"}, "torn-frame", nil, "a write toward a stream client ended early (%s) and the connection stays in use: what follows the torn frame cannot be framed", addr)
 	case role == "listener-conn" && op == "Write":
 		i := strings.LastIndex(addr, ">")
 		m.srvWriteFailed[addr[i+1:]] = true
